@@ -261,3 +261,41 @@ Proof.
   exact (conj (para_sound_Q _ _ _ _ _ quad1_parallelogram_J_is_affine) (para_sound_Q _ _ _ _ _ hex1_parallelogram_J_is_affine)).
 Qed.
 Print Assumptions C10_iso_parallelogram_J_is_affine.
+
+(* ================= strictly convex quadrilaterals (MeshQuad1): positivity of det DF and OUTWARD normals =================
+   corner_det pt k = orient(P_k, P_next, P_prev), the corner-triangle determinants (the hypothesis of group I's
+   C14_quad_split_tiles, see corner_dets_are_C14_hypotheses); s = +-1 is the orientation of the cell.
+   (a) det J (T2 cofactor term on the delivered polynomial J) is the bilinear interpolant of the four corner determinants —
+       a polynomial identity — hence s det J > 0 at EVERY point of the closed reference square;
+   (b) nu = adj(J)^T N_s (the un-normalised normal before division by det J) satisfies nu . (P_k - x) = - corner determinant for
+       both vertices P_k of the opposite side and every point x of side s, so n = nu / det J has n . (P_k - x) < 0: it points out
+       of the cell, for either orientation. *)
+From Coq Require Import Lia.
+Require Import Proofs.C10_QuadConvex Proofs.C14_QuadProofs.
+Theorem C10_quad_detJ_positive_and_normals_outward : forall (pt : nat -> Q) (s : Q), Qeq (s * s) 1 ->
+  (forall k, k < 4 -> Qlt 0 (s * corner_det pt k)) ->
+  (Qle 0 (pt 0) -> Qle (pt 0) 1 -> Qle 0 (pt 1) -> Qle (pt 1) 1 ->
+     Qlt 0 (s * qeval (detJ_poly (@iso_detDF_2 poly PolyOps) quad1_dphi) pt)) /\
+  (forall fo, In fo quad1_outward -> forall km, In km (snd fo) -> snd km < 4 ->
+     Qlt (s * qeval (nu_dot_to_vertex (@iso_adj_2 poly PolyOps) quad1_dphi quad1_psi (fst fo) (fst km)) pt) 0).
+Proof.
+  intros pt s Hs Hc. split.
+  - intros H1 H2 H3 H4.
+    exact (quad_detJ_positive _ _ quad1_detJ_is_bilinear_in_corner_determinants pt s Hs Hc H1 H2 H3 H4).
+  - exact (quad_normal_outward _ _ _ _ quad1_normal_points_away_from_opposite_vertices pt s Hc).
+Qed.
+Print Assumptions C10_quad_detJ_positive_and_normals_outward.
+
+(* the hypotheses are exactly the four orientation determinants of C14_quad_split_tiles *)
+Theorem C10_corner_determinants_are_C14_hypotheses : forall pt : nat -> Q,
+  let X k := pt (node_var 2 k 0) in let Y k := pt (node_var 2 k 1) in
+  Qeq (corner_det pt 0) (orient (X 0) (Y 0) (X 1) (Y 1) (X 3) (Y 3)) /\ Qeq (corner_det pt 1) (orient (X 0) (Y 0) (X 1) (Y 1) (X 2) (Y 2)) /\
+  Qeq (corner_det pt 2) (orient (X 1) (Y 1) (X 2) (Y 2) (X 3) (Y 3)) /\ Qeq (corner_det pt 3) (orient (X 0) (Y 0) (X 2) (Y 2) (X 3) (Y 3)).
+Proof. exact corner_dets_are_C14_hypotheses. Qed.
+Print Assumptions C10_corner_determinants_are_C14_hypotheses.
+
+(* non-vacuity: the unit square with one corner pulled out is strictly convex, positively oriented *)
+Example C10_convex_quad_instance :
+  let pt := lpt [0; 0;  0; 0;  1; 0;  2; 2;  0; 1]%Q in forall k, k < 4 -> Qlt 0 (1 * corner_det pt k).
+Proof. intros pt k Hk. destruct k as [|[|[|[|k]]]]; try lia; vm_compute; reflexivity. Qed.
+Print Assumptions C10_convex_quad_instance.
